@@ -102,6 +102,7 @@ type testEnv struct {
 	panics   int
 	lastPanic string
 	rec      *recorder
+	emitCookieOps bool // emit a `mkcookie` model comparison for every Set-Cookie (suite cookieattrs)
 	redisFault map[string]string // upper-case command → "before" | "after" (one shot)
 }
 
@@ -547,6 +548,22 @@ func (e *testEnv) monitorCookies(req *http.Request, v *respView) {
 			if len(line) > 4096 {
 				bad += fmt.Sprintf("length %d > 4096; ", len(line))
 			}
+		}
+		if c != nil && e.emitCookieOps {
+			// correspondence with the Lean makeCookie / domainRule model on every observed Set-Cookie
+			exp := int64(e.opts.Cookie.Expire)
+			if strings.HasSuffix(c.Name, "_csrf") {
+				exp = int64(e.opts.Cookie.CSRFExpire)
+			}
+			ma := "none"
+			if c.MaxAge < 0 {
+				exp, ma = -1, "neg"
+			} else if c.MaxAge > 0 {
+				ma = fmt.Sprintf("pos:%d", c.MaxAge)
+			}
+			p := e.opts.Cookie.Path
+			e.c.emit(fmt.Sprintf("%s %s %s %s %s %s", hx(c.Domain), hx(c.Path), bs(c.Secure), bs(c.HttpOnly), hx(sameSiteName(c.SameSite)), ma),
+				"mkcookie", hxl(e.opts.Cookie.Domains), hx(p), bs(e.opts.Cookie.Secure), bs(e.opts.Cookie.HTTPOnly), hx(e.opts.Cookie.SameSite), hx(host), hx(c.Name), i64s(exp))
 		}
 		if bad != "" {
 			e.c.violation("C18", "Set-Cookie lacks configured attributes: "+bad, map[string]interface{}{
